@@ -30,7 +30,7 @@ LEVEL_TEXT = ("Theorems (Props/C12.v) about Model/SimMachine.v, for ALL operatio
               "to_file+from_file(h5,npz,json) x what(4), model update+clean} on any number of slots and any "
               "number of derived simulations (in-memory mode): coherence invariant of every cache "
               "(inv_reachable), history independence of synthetic/misfit/gradient, independence of copies, "
-              "every solve issued with the tolerance of its kind. The three places where the code as found "
+              "every solve issued with the tolerance of its kind and handed the current model version (in-place and replacement updates). The three places where the code as found "
               "violates this are refuted by vm_compute witnesses (history_independence_refuted, ...), and "
               "so is independence of copies that share a file_dir.")
 LEVEL_NOTE = ("The model is hand-written; it is tied to /repo by differential correspondence after every "
@@ -60,13 +60,21 @@ NW, NV, NM = 2, 2, 2
 
 # ------------------------------------------------------------------ problems
 class Problem:
-    """A tiny survey/grid with two model versions and reference quantities."""
+    """A tiny survey/grid with two model versions and reference quantities.
+
+    layout % 2: 0 = 2 sources x 1 frequency, 1 = 1 source x 2 frequencies;
+    layout // 2: 0 = gridding='same' (computational grid IS the model grid),
+    1 = gridding='input' with an 8x4x4 computational grid that differs from the
+    4x4x4 model grid (the model is interpolated for every solve)."""
 
     def __init__(self, case, layout):
         import emg3d
         self.case, self.layout = case, layout
+        self.gridding = 'input' if layout >= 2 else 'same'
         hx = np.ones(4) * 50.0
         self.grid = emg3d.TensorMesh([hx, hx, hx], (-100, -100, -100))
+        self.cgrid = (emg3d.TensorMesh([np.ones(8) * 25.0, hx, hx], (-100, -100, -100))
+                      if self.gridding == 'input' else self.grid)
         sh = self.grid.shape_cells
         r = np.random.RandomState(11 + (case == 'VTI') + 2 * layout)
         self.props = []
@@ -74,7 +82,7 @@ class Problem:
             px = 1.0 + r.randint(1, 8, sh) / 4.0
             pz = 1.0 + r.randint(1, 8, sh) / 4.0
             self.props.append((px, pz))
-        if layout == 0:
+        if layout % 2 == 0:
             self.src = [(-30, 10, 5, 20, 10), (20, -15, 10, 70, -20)]
             self.freqs = [1.0]
         else:
@@ -85,6 +93,15 @@ class Problem:
         self.W = [(r.randint(-8, 8, self.shape) + 1j * r.randint(-8, 8, self.shape)) / 8.0
                   for _ in range(NW)]
         self.Vv = [r.randint(1, 8, ((2,) if case == 'VTI' else ()) + tuple(sh)) / 8.0 for _ in range(NV)]
+        # model versions as the solver may be handed them: on the model grid, or
+        # interpolated to the computational grid
+        self.mrefs = []
+        for m in range(NM):
+            mm = self.model(m)
+            refs = [mm]
+            if self.gridding == 'input':
+                refs.append(mm.interpolate_to_grid(self.cgrid))
+            self.mrefs.append(refs)
         self.obs = None
         s = self.make_sim(NM)
         s.compute()
@@ -110,8 +127,11 @@ class Problem:
         data = None if self.obs is None else self.obs.copy()
         survey = emg3d.Survey(src, rec, list(self.freqs), data=data,
                               noise_floor=1e-16, relative_error=0.05)
+        gkw = dict(gridding='same')
+        if self.gridding == 'input':
+            gkw = dict(gridding='input', gridding_opts=self.cgrid)
         return emg3d.Simulation(
-            survey, self.model(m), max_workers=1, gridding='same',
+            survey, self.model(m), max_workers=1, **gkw,
             receiver_interpolation='linear', verb=-1, tqdm_opts=False, file_dir=file_dir,
             solver_opts=dict(tol=TOL_F, tol_gradient=TOL_G, maxit=60, verb=0, plain=True))
 
@@ -196,7 +216,8 @@ def coq_op(op):
         t = ("OExport " + ['VCopy', 'VDict', 'VH5', 'VNpz', 'VJson'][VIA.index(a[0])] + " "
              + ['DComputed', 'DResults', 'DAll', 'DPlain'][DW.index(a[1])])
     elif name == 'setmodel':
-        t = f"OSetModel {a[0]} " + V.coq_bool(a[1] == 'all')
+        t = (f"OSetModel {a[0]} " + V.coq_bool(a[1] == 'all') + " "
+             + V.coq_bool(len(a) > 2 and a[2] == 'replace'))
     return f"({k}%nat, {t})"
 
 
@@ -245,7 +266,7 @@ class World:
                         slot = sl.index((skey[id(d['source'])], fkey[float(d['frequency'])]))
                 else:
                     slot = j
-                trace.extend([kind, slot, tk, int(d['efield'] is not None)])
+                trace.extend([kind, slot, tk, int(d['efield'] is not None), self.cls_model(d['model'])])
             return orig(fun, items, max_workers=max_workers, **kw)
         pm.count = orig.count          # process_map refers to its own global name for the counter
         mp.process_map = pm
@@ -292,10 +313,13 @@ class World:
                 elif name == 'clean':
                     sim.clean(a[0])
                 elif name == 'setmodel':
-                    px, pz = p.props[a[0]]
-                    sim.model.property_x[...] = px
-                    if p.case == 'VTI':
-                        sim.model.property_z[...] = pz
+                    if len(a) > 2 and a[2] == 'replace':      # sim.model = new Model
+                        sim.model = p.model(a[0])
+                    else:                                     # edit the model in place
+                        px, pz = p.props[a[0]]
+                        sim.model.property_x[...] = px
+                        if p.case == 'VTI':
+                            sim.model.property_z[...] = pz
                     sim.clean(a[1])
                 elif name == 'export':
                     via, what = a
@@ -316,6 +340,17 @@ class World:
             ret = [4, ERR.get(type(e).__name__, 9), 0, 0]
             self.last_exc = f"{type(e).__name__}: {str(e)[:200]}"
         return ret + list(self.trace)
+
+    def cls_model(self, mod):
+        """Model version (0..NM-1) of a Model handed to the solver, 9 if none."""
+        for m in range(NM):
+            for ref in self.p.mrefs[m]:
+                if (mod.property_x.shape == ref.property_x.shape
+                        and np.allclose(mod.property_x, ref.property_x, rtol=1e-12, atol=0)
+                        and (self.p.case != 'VTI'
+                             or np.allclose(mod.property_z, ref.property_z, rtol=1e-12, atol=0))):
+                    return m
+        return 9
 
     # -- classification of values against fresh-simulation references
     def cls_number(self, v):
@@ -466,7 +501,7 @@ def field_names(n):
 
 
 # --------------------------------------------------------------- generation
-def gen_history(rng, n, maxlen, nsims_max=3):
+def gen_history(rng, n, maxlen, nsims_max=3, vias=None):
     L = rng.randint(1, maxlen)
     ops, nsims = [], 1
     for _ in range(L):
@@ -489,12 +524,21 @@ def gen_history(rng, n, maxlen, nsims_max=3):
         elif r < 0.78:
             op = (k, 'clean', rng.choice(CW))
         elif r < 0.92 and nsims < nsims_max:
-            op = (k, 'export', rng.choice(VIA), rng.choice(DW))
+            op = (k, 'export', rng.choice(vias or VIA), rng.choice(DW))
             nsims += 1
         else:
-            op = (k, 'setmodel', rng.randrange(NM), rng.choice(['computed', 'all']))
+            op = (k, 'setmodel', rng.randrange(NM), rng.choice(['computed', 'computed', 'all']),
+                  rng.choice(['inplace', 'replace']))
         ops.append(op)
     return ops
+
+
+def vias_for(layout):
+    """gridding='input': a Simulation saved with to_file cannot be reloaded (from_file returns a plain
+    dict + warning 'Could not de-serialize <simulation>: Mesh must be a TensorMesh', because
+    Simulation.from_dict is handed the still serialised gridding_opts mesh) -- reported in docs/C12.md;
+    file round trips are therefore exercised on the gridding='same' problems only."""
+    return ['copy', 'dict'] if layout >= 2 else None
 
 
 def valid(ops):
@@ -533,16 +577,37 @@ WITNESSES = [
 ]
 
 
-def bad_tolerance(ob):
+def bad_tolerance(ob, m_expected=None):
     """Solve records (kind, slot, tol, warm) of an observation whose tolerance is
     not the one a fresh simulation uses for that kind of solve."""
     tr = ob[4:]
-    for j in range(0, len(tr) - 3, 4):
+    for j in range(0, len(tr) - 4, 5):
         kind, slot, tk = tr[j], tr[j + 1], tr[j + 2]
+        if m_expected is not None and tr[j + 4] != m_expected:
+            got = f"model version {tr[j + 4]}" if tr[j + 4] < NM else "a model that is no version of this problem"
+            return (f"{['forward', 'back-propagation', 'jvec'][kind] if kind < 3 else 'unknown'} solve of slot "
+                    f"{slot} was handed {got}; the simulation's model is version {m_expected}")
         if (kind == 0 and tk != 0) or (kind in (1, 2) and tk != 1):
             return (f"{['forward', 'back-propagation', 'jvec'][kind] if kind < 3 else 'unknown'} solve of slot "
                     f"{slot} issued with {['tol', 'tol_gradient'][tk] if tk < 2 else 'an unknown tolerance'}")
     return None
+
+
+# problems: (case, layout); layout >= 2 means gridding='input' (see Problem)
+COMBOS = [('isotropic', 0), ('VTI', 1), ('isotropic', 3), ('VTI', 2)]
+
+# histories of the shape "fill every cache, update the model, clean, recompute"
+# (in place and by replacement, clean('computed') and clean('all'), also on a
+# copy); run on every problem by the correspondence and by the searcher
+SUSPECTS = [
+    [(0, 'compute'), (0, 'setmodel', 1, 'computed', 'replace'), (0, 'gradient')],
+    [(0, 'get_hfield', 0), (0, 'setmodel', 1, 'computed', 'inplace'), (0, 'misfit')],
+    [(0, 'gradient'), (0, 'jvec', 0), (0, 'setmodel', 1, 'all', 'replace'), (0, 'jvec', 1),
+     (0, 'jtvec', 0)],
+    [(0, 'misfit'), (0, 'export', 'copy', 'computed'), (1, 'setmodel', 1, 'computed', 'replace'),
+     (1, 'compute'), (0, 'setmodel', 1, 'computed', 'inplace'), (0, 'gradient'),
+     (0, 'setmodel', 0, 'computed', 'inplace'), (0, 'gradient')],
+]
 
 
 def property_fails(prob, file_mode, ops):
@@ -570,11 +635,12 @@ def property_fails(prob, file_mode, ops):
             if ob[0] == 2:
                 return {'step': j, 'op': op_text(op), 'observed': 'misfit is not a number (memoryview)',
                         'required': 'the misfit of a fresh simulation'}
-            bad = bad_tolerance(ob)
+            bad = bad_tolerance(ob, intended[op[0]] if op[0] < len(intended) else None)
             if bad:
                 return {'step': j, 'op': op_text(op), 'observed': bad,
-                        'required': 'forward solves with tol, back-propagation/jvec solves with '
-                                    'tol_gradient, as in a fresh simulation'}
+                        'required': "every solve is handed the simulation's current model; forward solves "
+                                    "use tol, back-propagation/jvec solves tol_gradient (as a fresh "
+                                    "simulation does)"}
             name = op[1]
             if op[0] >= len(w.sims):
                 continue
@@ -590,11 +656,12 @@ def property_fails(prob, file_mode, ops):
             for q in ('misfit', 'gradient', 'compute'):
                 ob = w.apply((k, q))
                 m = w.enc_sim(w.sims[k])[0]
-                bad = bad_tolerance(ob)
+                bad = bad_tolerance(ob, intended[k])
                 if bad:
                     return {'step': len(ops), 'op': f'query {q}@{k}', 'observed': bad,
-                            'required': 'forward solves with tol, back-propagation/jvec solves with '
-                                        'tol_gradient, as in a fresh simulation'}
+                            'required': "every solve is handed the simulation's current model; forward "
+                                        "solves use tol, back-propagation/jvec solves tol_gradient (as a "
+                                        "fresh simulation does)"}
                 if ob[0] == 4:
                     return {'step': len(ops), 'op': f'query {q}@{k}', 'observed': 'raises ' + w.last_exc,
                             'required': 'value of a fresh simulation'}
@@ -786,32 +853,45 @@ def correspondence(ctx):
     nh = 700 if ctx.thorough else 130
     maxlen = 12 if ctx.thorough else 8
     quirks = active_quirks()
-    combos = [('isotropic', 0), ('VTI', 1)]
+    combos = COMBOS
     cases = []
-    # corpus: witnesses first
+    # corpus: witnesses first, then the model-update suspects on every problem
     for sig, quirk, fm, ops, what in WITNESSES:
         cases.append(dict(case='isotropic', layout=0, file=fm, n=2, ops=list(ops)))
+    for case, layout in combos:
+        for j, ops in enumerate(SUSPECTS):
+            cases.append(dict(case=case, layout=layout, file=(j == 1), n=problem(case, layout).n,
+                              ops=list(ops)))
     while len(cases) < nh:
-        case, layout = combos[len(cases) % 2]
-        fm = (len(cases) // 2) % 3 == 2
+        case, layout = combos[len(cases) % len(combos)]
+        fm = (len(cases) // len(combos)) % 3 == 2
         prob = problem(case, layout)
         cases.append(dict(case=case, layout=layout, file=fm, n=prob.n,
-                          ops=gen_history(rng, prob.n, maxlen)))
+                          ops=gen_history(rng, prob.n, maxlen, vias=vias_for(layout))))
     dis, nsteps, hist, distinct = check_cases(cases, quirks)
     ctx.c12_dis = [dict(d) for d in dis]
     for d in dis:
         d.pop('_ops', None)
         d.pop('_c', None)
     hist['file_dir histories'] = sum(1 for c in cases if c['file'])
+    hist["gridding='input' histories (computational grid != model grid)"] = sum(
+        1 for c in cases if c['layout'] >= 2)
+    hist['setmodel by replacement'] = sum(1 for c in cases for o in c['ops']
+                                          if o[1] == 'setmodel' and len(o) > 4 and o[4] == 'replace')
+    hist['setmodel in place'] = sum(1 for c in cases for o in c['ops']
+                                    if o[1] == 'setmodel' and not (len(o) > 4 and o[4] == 'replace'))
     hist['histories with >1 simulation'] = sum(1 for c in cases if any(o[1] == 'export' for o in c['ops']))
     hist['length'] = {str(L): sum(1 for c in cases if len(c['ops']) == L) for L in range(1, maxlen + 1)}
     ctx.notes.append(f"model variant used: {quirks}")
     return {
         'evaluations': nsteps,
         'distinct_nontrivial': len(distinct),
-        'rule': f"{len(cases)} histories (4 fixed witnesses + random, length 1..{maxlen}, ops weighted, up to 3 "
-                "simulations per world, 1/3 with file_dir), alternating isotropic 2src x 1freq / VTI 1src x 2freq "
-                "4^3 problems; after every step: return-value tag, solve trace (kind, slot, tol, warm) and the "
+        'rule': f"{len(cases)} histories (4 fixed witnesses + 4 model-update suspects on each of 4 problems + "
+                f"random, length 1..{maxlen}, ops weighted, up to 3 simulations per world, 1/3 with file_dir), "
+                "cycling over isotropic 2src x 1freq and VTI 1src x 2freq with gridding='same', isotropic "
+                "1src x 2freq and VTI 2src x 1freq with gridding='input' (8x4x4 computational grid != 4^3 "
+                "model grid); model updates in place and by replacement; after every step: return-value "
+                "tag, solve trace (kind, slot, tol, warm, MODEL VERSION handed to the solver) and the "
                 "tags of all caches of all simulations compared with the Coq model; non-trivial = history "
                 "issues at least one solve or creates a second simulation",
         'samples': [[op_text(o) for o in c['ops']] for c in cases[4:8]],
@@ -869,6 +949,22 @@ def search(ctx, broken):
             hits.append({'signature': sig, 'case': prob.case, 'layout': prob.layout, 'file_dir': fm,
                          'history': [list(o) for o in small], 'history_text': [op_text(o) for o in small],
                          'failure': property_fails(prob, fm, small)})
+    # the model-update suspects, on every problem, with the independent oracle
+    if broken or ctx.thorough:
+        for case, layout in COMBOS:
+            prob = problem(case, layout)
+            for j, ops in enumerate(SUSPECTS):
+                if len(hits) >= 6 or not property_fails(prob, j == 1, ops):
+                    continue
+                small = shrink(prob, j == 1, ops)
+                sig = signature(small, j == 1) + f" [{case}, gridding={prob.gridding}]"
+                if sig not in seen:
+                    seen.add(sig)
+                    hits.append({'signature': sig, 'case': case, 'layout': layout, 'file_dir': j == 1,
+                                 'gridding': prob.gridding,
+                                 'history': [list(o) for o in small],
+                                 'history_text': [op_text(o) for o in small],
+                                 'failure': property_fails(prob, j == 1, small)})
     # minimise the histories on which model and implementation disagreed
     for d in getattr(ctx, 'c12_dis', [])[:6]:
         if '_ops' not in d:
@@ -882,7 +978,7 @@ def search(ctx, broken):
             # changing the model of one simulation and asking the others
             nsim = 1 + sum(1 for o in base if o[1] == 'export')
             for k in range(nsim):
-                ext = base + [(k, 'setmodel', 1, 'computed')]
+                ext = base + [(k, 'setmodel', 1, 'computed', 'inplace')]
                 if property_fails(prob, fm, ext):
                     base, f = ext, True
                     break
@@ -900,10 +996,10 @@ def search(ctx, broken):
         # random search with the independent oracle only
         n = 60 if ctx.thorough else 25
         for t in range(n):
-            case, layout = [('isotropic', 0), ('VTI', 1)][t % 2]
-            fm = t % 3 == 2
+            case, layout = COMBOS[t % len(COMBOS)]
+            fm = (t // len(COMBOS)) % 3 == 2
             prob = problem(case, layout)
-            ops = gen_history(ctx.rng, prob.n, 8)
+            ops = gen_history(ctx.rng, prob.n, 8, vias=vias_for(layout))
             if property_fails(prob, fm, ops):
                 small = shrink(prob, fm, ops)
                 sig = signature(small, fm)
